@@ -319,6 +319,23 @@ def main(tier, seed):
         got = sorted(x for x in OPTS if "-D" + x in d)
         if got != [o] or sorted(set(d) - {"-D" + o}) != sorted(set(stock) - {"-D" + x for x in on}):
             rep.violation("makefile/%s=ON-adds-%s" % (o, "+".join(got) or "nothing"), {"make": "make %s=ON" % o}, {"defs": d, "stock": stock})
+    # --- every object of the shared AND the static library, switch given on the command line and through the environment
+    def audit(tag, make_args, env_extra, want):
+        lines = build.make_compile_lines(make_args, env_extra)
+        rep.counters["makefile.dry-runs"] += 1
+        rep.counters["makefile.compile-lines"] += len(lines)
+        libsrc = [(f, d, l) for f, d, l in lines if f.startswith(("src/", "partial/"))]
+        if len(libsrc) < 15:
+            raise core.Inconclusive("dry run of the Makefile shows only %d library compile commands (%s)" % (len(libsrc), tag))
+        for f, defs, l in libsrc:
+            got = sorted(o for o in OPTS if o in defs)
+            if got != sorted(want):
+                rep.violation("makefile/%s/object-built-with-%s" % (tag, "+".join(got) or "no-option"),
+                              {"make": tag, "source": f}, {"expected": sorted(want), "command": l.strip()[:300]})
+    audit("default", [], None, [])
+    for o in OPTS:
+        audit("%s=ON" % o, ["%s=ON" % o], None, [o])
+        audit("env:%s=ON" % o, [], {o: "ON"}, [o])
     # --- the eight builds
     exes = {}
     with ThreadPoolExecutor(max_workers=4) as ex:
